@@ -121,6 +121,22 @@ func (e *Exec) execCall2(in ssa.Instruction, c *ssa.CallCommon) Val {
 				}
 			}
 		}
+		// dynamic type provable on this path (e.g. after a type assertion or a store of a known value)?
+		if it, ok := args[0].(*Term); ok && !e.silent {
+			if cs := e.P.callees(c); len(cs) > 0 && len(cs) <= 8 {
+				tag := IfTag(it)
+				for _, f := range cs {
+					if f.Signature.Recv() == nil {
+						continue
+					}
+					if e.proveNow(Eq(tag, IntLit(typeID(f.Signature.Recv().Type())))) {
+						recv := e.unbox(it, f.Signature.Recv().Type())
+						nargs := append([]Val{recv}, args[1:]...)
+						return e.callStatic(f, nargs, sig, in, c)
+					}
+				}
+			}
+		}
 		if ct := e.P.Contracts[name]; ct != nil {
 			return e.callByContract(ct, nil, args, sig, in)
 		}
